@@ -589,7 +589,8 @@ func (m *Mint) RequestMeltQuote(meltQuoteRequest nut05.PostMeltQuoteBolt11Reques
 	if bolt11.MSatoshi == 0 {
 		return storage.MeltQuote{}, cashu.BuildCashuError("invoice has no amount", cashu.MeltQuoteErrCode)
 	}
-	invoiceSatAmount := uint64(bolt11.MSatoshi) / 1000
+	// round up so that the sub-satoshi part of the invoice is covered by the quote amount
+	invoiceSatAmount := (uint64(bolt11.MSatoshi) + 999) / 1000
 	quoteAmount := invoiceSatAmount
 
 	// check if a mint quote exists with the same invoice.
@@ -620,7 +621,7 @@ func (m *Mint) RequestMeltQuote(meltQuoteRequest nut05.PostMeltQuoteBolt11Reques
 				}
 				isMpp = true
 				amountMsat = mpp.AmountMsat
-				quoteAmount = amountMsat / 1000
+				quoteAmount = (amountMsat + 999) / 1000
 				m.logInfof("got melt quote request to pay partial amount '%v' of invoice with amount '%v'",
 					quoteAmount, invoiceSatAmount)
 			} else {
